@@ -66,9 +66,18 @@ def add_race_events(td, trace):
 def count(ctx, uniq):
     sit = ctx.cov.setdefault('situations', {})
     for text, mult in uniq.items():
+        kinds = None
         for l in text.split('\n'):
             e = json.loads(l)
             op = e['op']
+            if op == 'reset':
+                kinds = [k for k, o in zip(e['errkind'], e['out']) if o == 'fail']
+                for k in kinds:
+                    sit['failing member error kind: ' + k] = sit.get('failing member error kind: ' + k, 0) + mult
+                if e['acts'] and e['acts'][0] in ('rel0', 'rel1') and e['out'][int(e['acts'][0][3])] == 'fail' \
+                        and e['errkind'][int(e['acts'][0][3])] in ('canceled', 'deadline') and e['variant'] == 'settle':
+                    kk = 'a failing member answered first with its own context.Canceled/DeadlineExceeded'
+                    sit[kk] = sit.get(kk, 0) + mult
             if op == 'tau':
                 continue
             if op == 'reset':
@@ -77,6 +86,10 @@ def count(ctx, uniq):
                 k = 'returned ' + e['ret']
             elif op == 'act':
                 k = 'environment: ' + e['a']
+            elif op == 'readobs':
+                k = 'caller read the reader to EOF before closing' if e['kind'] == 'read' else 'caller read a piece of the reader'
+            elif op == 'reset' and False:
+                pass
             elif op == 'closed':
                 k = 'reader Close returned its error to the caller' if e['closeerr'] else 'reader closed cleanly'
             elif op == 'final':
@@ -124,13 +137,20 @@ def run(ctx):
         scheds, r = fgen.result()
         vh = fvh.result()
     ctx.log('harness built')
-    if not r['ok'] or len(scheds) < 100:
+    if not r['ok'] or len(scheds) < 1000:
         raise vlib.Machinery('schedule generation did not complete (%d schedules):\n%s' % (len(scheds), vlib.tlc_errors(r['out'])))
     ctx.cov['states'] += r.get('distinct', 0)
     ctx.cov['transitions'] += r.get('generated', 0)
     ctx.cov['model_runs'].append(dict(module='OciUnifyConcGen.tla', cfg='OciUnifyConcGen.cfg', distinct=r.get('distinct'), generated=r.get('generated'),
                                       wall_s=round(r['wall'], 1), what='%d distinct complete environment schedules exported' % len(scheds)))
     ctx.cov['schedules_exported_by_tlc'] = len(scheds)
+    nall = len(scheds)
+    if quick:
+        # every schedule in which the caller does not read; of those in which it reads (a piece / to EOF, at every
+        # position between the return and Close) one in four, which ones rotating with the seed; thorough: all
+        scheds = [s for i, s in enumerate(scheds) if not ({'read', 'readpart'} & set(s['acts'])) or (i + ctx.seed) % 4 == 0]
+    ctx.cov['schedules_replayed'] = len(scheds)
+    ctx.log('%d of %d exported schedules replayed' % (len(scheds), nall))
     sd = ctx.sub('sched')
     sp = os.path.join(sd, 'sched.jsonl')
     with open(sp, 'w') as f:
@@ -160,7 +180,7 @@ def run(ctx):
     ctx.cov['distinct_recorded_runs'] = len(uniq)
     ctx.cov['race_detector'] = not quick
     sit = ctx.cov['situations']
-    for need in tuple('runs of ' + e for e in ('GetBlob', 'GetBlobRange', 'GetManifest', 'ResolveBlob', 'ResolveManifest')) + ('returned ok0', 'returned ok1', 'returned err', 'returned cancelled', 'environment: close', 'environment: cancel', 'reader Close returned its error to the caller', 'reader closed cleanly', 'quiescence reached'):
+    for need in tuple('runs of ' + e for e in ('GetBlob', 'GetBlobRange', 'GetManifest', 'ResolveBlob', 'ResolveManifest')) + ('returned ok0', 'returned ok1', 'returned err', 'returned cancelled', 'environment: close', 'environment: cancel', 'reader Close returned its error to the caller', 'reader closed cleanly', 'caller read the reader to EOF before closing', 'caller read a piece of the reader', 'a failing member answered first with its own context.Canceled/DeadlineExceeded', 'quiescence reached'):
         if not sit.get(need):
             raise vlib.Machinery('the batch never reached the situation %r' % need)
     first = next(iter(uniq)).split('\n')
@@ -174,8 +194,8 @@ def run(ctx):
     return vlib.finish(ctx, rule='TLC exports every complete environment schedule of OciUnifyConc (outcomes x modes x style x order of member returns, caller cancel, '
                        'caller close); each is replayed on ociunify.New(fake0, fake1, ReadConcurrent) for GetBlob, GetBlobRange, GetManifest (reader style) or '
                        'ResolveBlob, ResolveManifest (resolve style), once waiting for the system to react after each action and once not; the trace holds the actions '
-                       'performed and the observations (answer returned and by which member, context state of the members main heard from, reader close counts, '
-                       'after Close: closed once, the scripted Close error of the reader passed through, context cancelled whatever Close returned, at quiescence: every reader/context and the number of goroutines inside ociunify); TLC accepts '
+                       'performed and the observations (answer returned and by which member - the error of a failing member is generic, not-found, or its own context.Canceled / DeadlineExceeded -, context state of the members main heard from, reader close counts, '
+                       'after the caller read a piece / to EOF: context of the chosen member unchanged and reader not closed, after Close: the context of the member was live inside the Close of its own reader, closed once, the scripted Close error of the reader passed through, context cancelled whatever Close returned, at quiescence: every reader/context and the number of goroutines inside ociunify); TLC accepts '
                        'a run iff some behaviour of the model with that order of environment actions shows exactly these observations')
 
 
